@@ -254,7 +254,9 @@ def dump_table(repo, ci, _depth=0):
                             raise AnalysisError(f"{f.qual}: key variable {k.id} does not range over a literal list: {src(s)}")
                         byname = isinstance(s.value, ast.Call) and call_name(s.value) == "getattr" and len(s.value.args) >= 2 \
                             and dotted(s.value.args[0]) == sn and dotted(s.value.args[1]) == k.id
-                        if not byname:
+                        sliced = isinstance(s.value, ast.Subscript) and isinstance(s.value.value, ast.Call) and call_name(s.value.value) == "getattr" \
+                            and len(s.value.value.args) >= 2 and dotted(s.value.value.args[0]) == sn and dotted(s.value.value.args[1]) == k.id
+                        if not byname and not sliced:
                             raise AnalysisError(f"{f.qual}: loop store is not {dname}[name] = getattr(self, name): {src(s)}")
                         for key in lst:
                             add(key, n, s.value, True)
